@@ -744,6 +744,9 @@ pub fn scale_cases() -> Vec<(&'static str, usize)> {
         ("ladder-other-pc", vec![8, 24, 40]),
         ("ladder-other-binding", vec![8, 24, 40]),
         ("ladder-other-both", vec![32]),
+        ("bindings+fmt", vec![400, 1000]),
+        ("members+fmt", vec![300]),
+        ("entries+fmt", vec![64]),
         ("huge-group-index", vec![1_000, 100_000_000, 4_294_967_295]),
         ("huge-binding-index", vec![1_000, 100_000_000, 4_294_967_295]),
         ("override-diamond", vec![8, 24, 48]),
@@ -768,6 +771,11 @@ pub fn scale_cases() -> Vec<(&'static str, usize)> {
 pub fn child(kind: &str, depth: usize) -> i32 {
     if let Some(k) = kind.strip_prefix("scale:") {
         // prints: <ok> <generation seconds> <naga parse+validate seconds>
+        // a `+fmt` suffix runs the same family with the formatter on (output sizes above the pipe buffer)
+        let (k, fmt) = match k.strip_suffix("+fmt") {
+            Some(b) => (b, true),
+            None => (k, false),
+        };
         let sh = scale_family(k, depth);
         let t0 = thread_cpu_seconds();
         let valid = naga_check(&sh.src).is_ok();
@@ -777,7 +785,7 @@ pub fn child(kind: &str, depth: usize) -> i32 {
             return 0;
         }
         let t1 = thread_cpu_seconds();
-        let out = generate(&sh.src, &Config::default());
+        let out = if fmt { generate_with_unguarded(&sh.src, None, Config { rustfmt: true, ..Config::default() }.options()) } else { generate(&sh.src, &Config::default()) };
         // a typed refusal (Err) is a finished call as well; only a panic is "not Ok" here
         println!("{} {:.6} {naga_s:.6}", matches!(out, Outcome::Ok(_) | Outcome::Err(..)) as u8, thread_cpu_seconds() - t1);
         return 0;
@@ -953,7 +961,7 @@ pub fn run(tier: &str) -> i32 {
     rep.set("scale_families", json!(scale_report));
     rep.set("wall_clock_children", json!(wall));
     rep.traces_validated = rep.evaluations;
-    rep.rule = format!("(1) every tile: DAG on <= {} helpers with each forward edge in {{absent, 1 statement call, 1 value call, 2 statement calls, 2 value calls, 1+1 mixed}}, composed {}x in series; (2) chain / diamond / 3-fold fan-in / fan-out families at depths {:?} with every call form at every placement context, plus 4-entry and 290-function members; (3) nested two-/three-member struct types to depth 24/40, wide structs, many variables sharing one type; (3b) statement shapes in one function (else-if chains, nested if / else / loop / for / switch / blocks, mixed) at sizes up to 60 under 1 and 3 entry points, block visits <= 8*E*(B+1) from the walk:block hook; (3c) ladders 40 levels deep under one entry with a push constant / binding that only another entry uses; (3d) override / const initialisers forming a 48-level diamond that sizes a workgroup and an array; (3e) group / binding indices up to u32::MAX; (4) size families: up to 1000 bindings / 1000 members / 300 structs / 64 vertex entries x 12 structs / 200 entry points sharing helpers / 300 consts+overrides / arrays nested 16 deep (two elements per level) and 60 deep (one element per level), each under max(2 s, 50 x naga) of thread CPU time. Oracle: walk:function visits <= 8*E*(F+C+1), walk:type visits <= 8*G*(T+M+1) (hook aborts at the budget); CPU time of amplified members in child processes <= max(2 s, 200 x same-size flat shader), with a 20-30 s wall-clock cap that only a hang can reach.", 4, if thorough { 16 } else { 8 }, if thorough { vec![8, 16, 32, 64] } else { vec![16, 64] });
+    rep.rule = format!("(1) every tile: DAG on <= {} helpers with each forward edge in {{absent, 1 statement call, 1 value call, 2 statement calls, 2 value calls, 1+1 mixed}}, composed {}x in series; (2) chain / diamond / 3-fold fan-in / fan-out families at depths {:?} with every call form at every placement context, plus 4-entry and 290-function members; (3) nested two-/three-member struct types to depth 24/40, wide structs, many variables sharing one type; (3b) statement shapes in one function (else-if chains, nested if / else / loop / for / switch / blocks, mixed) at sizes up to 60 under 1 and 3 entry points, block visits <= 8*E*(B+1) from the walk:block hook; (3c) ladders 40 levels deep under one entry with a push constant / binding that only another entry uses; (3d) override / const initialisers forming a 48-level diamond that sizes a workgroup and an array; (3e) group / binding indices up to u32::MAX; (3f) the large size families again with the formatter on (outputs far above the 64 KiB pipe buffer; wall-clock cap 20 s); (4) size families: up to 1000 bindings / 1000 members / 300 structs / 64 vertex entries x 12 structs / 200 entry points sharing helpers / 300 consts+overrides / arrays nested 16 deep (two elements per level) and 60 deep (one element per level), each under max(2 s, 50 x naga) of thread CPU time. Oracle: walk:function visits <= 8*E*(F+C+1), walk:type visits <= 8*G*(T+M+1) (hook aborts at the budget); CPU time of amplified members in child processes <= max(2 s, 200 x same-size flat shader), with a 20-30 s wall-clock cap that only a hang can reach.", 4, if thorough { 16 } else { 8 }, if thorough { vec![8, 16, 32, 64] } else { vec![16, 64] });
     rep.assumptions.push("step counts come from the verif-hooks points at the top of the two recursive walks; if a refactor removes them the wall-clock part decides alone".into());
     rep.finish()
 }
